@@ -6,6 +6,23 @@ from tv.refpeg import (Assign, Builder, Choice, Fail, Lit, Not, And, Opt, Re, Re
 from tv.ggen import G, Deriver, mutate
 
 
+class _Target:
+    """what the permissive scope provider resolves every link reference to"""
+
+    def __init__(self, name):
+        self.name = name
+
+
+def make_mm(text, **cfg):
+    """metamodel for a generated grammar; link references resolve to a stand-in object carrying the name
+    (resolution itself is the subject of C07-C11, not of the parsing checks)"""
+    from textx import metamodel_from_str
+    mm = metamodel_from_str(text, **cfg)
+    if '=[' in text:
+        mm.register_scope_providers({'*.*': lambda obj, attr, ref: _Target(ref.obj_name)})
+    return mm
+
+
 def dump_tx(v, depth=0):
     cls = v.__class__
     if hasattr(cls, '_tx_attrs') and not isinstance(v, (str, int, float, bool)):
